@@ -92,6 +92,7 @@ def run(ctx):
 
     numpy_scalars(ctx)
     concat_promotion(ctx)
+    where_operand_identity(ctx)
     shape_independence(ctx)
     # static theorems
     f = ctx.work / "C03_static.v"
@@ -215,6 +216,46 @@ def concat_promotion(ctx):
         if len(seen_n) > 1:
             ctx.finding({"site": "function-dtype", "func": "concat", "dtype": a, "dtype2": b, "law": "dtype-independent-of-shape"},
                         f"concat([{a}, {b}]): the outcome depends on the extents of the operands: {sorted(seen_n)}", {"dtypes": [a, b], "outcome_by_shapes_and_mode": {str(k): v for k, v in obs.items()}})
+
+
+def where_operand_identity(ctx):
+    """The result dtype of `where` is a function of the three operand dtypes only: passing the very same array object for
+    both branches, a copy of it, or an equal-valued second array gives one dtype (nullable whenever the condition is),
+    for placeholders and data-holding arrays alike."""
+    from vlib import family, ops
+    cases = []
+    forms = {"same": "out = ndx.where(c, x, x)", "copy": "out = ndx.where(c, x, x.copy())", "two": "out = ndx.where(c, x, y)", "same+0": "z_ = x; out = ndx.where(c, z_, x)"}
+    for cd_ in ("bool", "nbool"):
+        for d in ("int32", "int64", "float64", "utf8", "bool", "nint64", "uint8"):
+            for sh in ([3], [2, 2], []):
+                n = ops.prod(sh)
+                mk = lambda dd: {"dtype": dd, "shape": sh, "data": (["s:a"] * n if "utf8" in dd else [True] * n if "bool" in dd else [ops.fhex(1.0)] * n if "float" in dd else [1] * n),
+                                 **({"mask": [k % 2 == 0 for k in range(n)]} if dd.startswith("n") else {})}
+                for fk, impl in forms.items():
+                    cases.append({"id": f"wi-{cd_}-{d}-{len(sh)}{n}-{fk}", "inputs": {"c": mk(cd_), "x": mk(d), "y": mk(d)}, "impl": impl, "oracle": None, "eager": True,
+                                  "lazy_subsets": [{"names": ["c", "x", "y"]}, {"names": ["c"]}], "meta": {"func": "where", "dtype": d, "dtype2": cd_, "dclass": family.dclass(d), "form": fk, "shape": str(sh)}})
+    res = core.run_cases("harness.h_ops", cases, workers=14, per_case_timeout=120)
+    table = {}
+    for c in cases:
+        r = res.get(c["id"]) or {}
+        tr = r.get("traced") or []
+        for mode, o in [("eager", r.get("eager") or {})] + [(f"traced{k}", t or {}) for k, t in enumerate(tr)]:
+            out = None
+            if "raise" in o:
+                out = "!" + o["raise"]
+            elif "ok" in o:
+                out = o["ok"].get("dtype")
+            elif "meta" in o and isinstance(o["meta"], dict):
+                out = o["meta"].get("dtype")
+            table.setdefault((c["meta"]["dtype2"], c["meta"]["dtype"]), {})[(c["meta"]["form"], c["meta"]["shape"], mode)] = out
+        ctx.count(("wi", c["id"]), nontrivial=True)
+        ctx.evaluations += 1
+    for (cd_, d), obs in table.items():
+        seen = {v for v in obs.values() if v is not None and not v.startswith("!Other")}
+        if len(seen) > 1:
+            ctx.finding({"site": "function-dtype", "func": "where", "dtype": d, "dtype2": cd_, "law": "dtype-independent-of-operand-identity"},
+                        f"where({cd_} condition, {d}, {d}): the result dtype depends on whether the branches are the same object / on the shape / on the kind of array: {sorted(seen)}",
+                        {"dtypes": [cd_, d, d], "outcome_by_form_shape_mode": {str(k): v for k, v in obs.items()}})
 
 
 def shape_independence(ctx):
